@@ -9,6 +9,8 @@ from ..absval import SStr, SNum, Atom, HDict
 from ..core import AnalysisError, Ctx, norm, fold
 from ..pyfacts import dotted, guards_at, walk_guarded, calls_in
 
+from ..pai import as_sstr as pai_as
+
 META = {
     "explanation": "The required lexical class table, decided exhaustively: for every (object type, keyword) slot of the 20 schema files, every value class the slot admits (enum word of unknown letter case, free string, hex colour, attribute binding, parenthesised / NOT expression, /regex/, 'regex'i, {list}, int, float, bool, number / binding / hex lists, empty auto-created dict) and both quote characters, PAI evaluates PrettyPrinter.process_attribute (get_attribute_properties -> format_value -> check_options_list / Quoter) on an opaque value of the class and compares the emitted template with the class the property demands: free strings Q..Q with the value untouched, enum words bare upper-case, numbers and booleans bare, bindings / expressions / regexes / list expressions verbatim, lists space-joined with strings quoted and bindings bare, empty dict refused (M1). Special writers: CONFIG, repeated keys, key/value blocks and PROJECTION quote their strings (M2). Hidden __keys__ never reach the output: _format / process_dict / compute_max_key_length are evaluated on dictionaries that carry hidden keys with recognisable values (H1). Dispatch completeness: the elif chain of _format covers every special writer the grammar has before the generic attribute writer (D1).",
     "level_text": "The quoting decision is a function of (type, keyword, value shape) looked up in the schemas: the whole finite domain is enumerated and each cell is decided for all strings of the shape at once. Edit histories only change which dictionary is printed; the table is universal over dictionaries built from these classes.",
@@ -61,17 +63,10 @@ def run(ctx: Ctx) -> None:
             for vc in printer.classes_for(S, t, k, node):
                 if not vc.name.startswith("LIST"):
                     continue
-                holder: dict = {}
+                holder: dict = {"v": vc.make('"')}
                 got = []
                 for i_ in range(2):
-                    def make4(t=t, k=k, vc=vc):
-                        holder.setdefault("v", vc.make('"'))
-                        return models.printer(I4, quote='"', indent=0), [t, k, holder["v"], 0, 0], {}
-
-                    outs = I4.explore("pprint.PrettyPrinter.process_attribute", make4)
-                    if len(outs) != 1:
-                        raise AnalysisError(f"process_attribute forks for {t}.{k} {vc.name}")
-                    got.append((outs[0].kind, outs[0].value if outs[0].kind == "return" else outs[0].exc))
+                    got.append(printer.attr_line(I4, lambda: models.printer(I4, quote='"', indent=0), t, k, holder["v"]))
                 n4 += 1
                 unchanged = holder["v"] == vc.make('"')
                 ctx.check(got[0] == got[1] and unchanged, "M4", f"{t}.{k} | {vc.name}", loc_fv, f"{got[0][1]!r} twice", f"{k.upper()}: the first print writes {got[0][1]!r}, printing the same list object again writes {got[1][1]!r}" + ("" if unchanged else f" - the caller's list was rewritten to {holder['v']!r}"))
@@ -124,33 +119,28 @@ def run(ctx: Ctx) -> None:
     for q in ('"', "'"):
         s1 = lambda nm: SStr.atom(nm, first=printer.WORD, last=printer.WORD, excludes=frozenset("\"'`"), free=True)
 
-        def one(qual, args):
-            outs = I.explore(qual, lambda: (models.printer(I, quote=q, indent=0), args(), {}))
-            if len(outs) != 1 or outs[0].kind != "return":
-                raise AnalysisError(f"{qual} not evaluable: {[(o.kind, o.exc) for o in outs]}")
-            return outs[0].value
+        def body(type_name, items):
+            return [pai_as(x) for x in printer.block_lines(I, lambda: models.printer(I, quote=q, indent=0, end_comment=False), type_name, items)]
 
-        lines = one("pprint.PrettyPrinter.process_repeated_list", lambda: ["processing", [s1("v1"), s1("v2")], 0, 0])
+        lfmt = repo.loc("pprint", repo.func("pprint.PrettyPrinter._format"))
+        lines = body("layer", [("processing", [s1("v1"), s1("v2")])])
         good = lines == [SStr(["PROCESSING ", q, Atom("v1", first=printer.WORD, last=printer.WORD, excludes=frozenset("\"'`"), free=True), q]), SStr(["PROCESSING ", q, Atom("v2", first=printer.WORD, last=printer.WORD, excludes=frozenset("\"'`"), free=True), q])]
-        ctx.check(good, "M2", f"repeated key (quote {q})", repo.loc("pprint", repo.func("pprint.PrettyPrinter.process_repeated_list")), "one quoted line per value, in order", f"PROCESSING values written as {lines!r}")
+        ctx.check(good, "M2", f"repeated key (quote {q})", lfmt, "one quoted line per value, in order", f"PROCESSING values written as {lines!r}")
         d = HDict()
         d["somekey"] = s1("v")
-        lines = one("pprint.PrettyPrinter.process_config_dict", lambda: [d, 0])
+        lines = body("map", [("config", d)])
         vq = [" ", q, Atom("v", first=printer.WORD, last=printer.WORD, excludes=frozenset("\"'`"), free=True), q]
         good = lines in ([SStr(["CONFIG ", q, "SOMEKEY", q] + vq)], [SStr(["CONFIG ", q, "somekey", q] + vq)])
-        ctx.check(good, "M2", f"CONFIG (quote {q})", repo.loc("pprint", repo.func("pprint.PrettyPrinter.process_config_dict")), "CONFIG Q KEY Q Q value Q", f"CONFIG written as {lines!r}")
-        md = HDict()
-        md["__type__"] = "metadata"
-        md["akey"] = s1("v")
-        lines = one("pprint.PrettyPrinter.process_dict", lambda: [md, 0, HDict()])
-        good = lines == [SStr([q, "akey", q, " ", q, Atom("v", first=printer.WORD, last=printer.WORD, excludes=frozenset("\"'`"), free=True), q])]
-        ctx.check(good, "M2", f"key/value block entry (quote {q})", repo.loc("pprint", repo.func("pprint.PrettyPrinter.process_dict")), "Q key Q Q value Q; __type__ skipped", f"METADATA entries written as {lines!r}")
-        lines = one("pprint.PrettyPrinter.process_projection", lambda: ["projection", [s1("p1"), s1("p2")], 0, ""])
-        body = [l for l in lines[1:-1]]
-        good = len(lines) == 4 and lines[0] == "PROJECTION" and lines[-1] == "END" and all(isinstance(b, SStr) and b.pieces[0] == q and b.pieces[-1] == q for b in body)
-        ctx.check(good, "M2", f"PROJECTION strings (quote {q})", repo.loc("pprint", repo.func("pprint.PrettyPrinter.process_projection")), "each string quoted", f"PROJECTION written as {lines!r}")
-        lines = one("pprint.PrettyPrinter.process_projection", lambda: ["projection", [SStr.atom("w", lower_is="auto")], 0, ""])
-        ctx.check(lines == ["PROJECTION", "AUTO", "END"], "M2", f"PROJECTION AUTO (quote {q})", repo.loc("pprint", repo.func("pprint.PrettyPrinter.process_projection")), "AUTO bare", f"PROJECTION AUTO written as {lines!r}")
+        ctx.check(good, "M2", f"CONFIG (quote {q})", lfmt, "CONFIG Q KEY Q Q value Q", f"CONFIG written as {lines!r}")
+        lines = body("layer", [("metadata", printer.kv_dict("metadata", [("akey", s1("v"))]))])
+        good = lines == [SStr(["METADATA"]), SStr([q, "akey", q, " ", q, Atom("v", first=printer.WORD, last=printer.WORD, excludes=frozenset("\"'`"), free=True), q]), SStr(["END"])]
+        ctx.check(good, "M2", f"key/value block entry (quote {q})", lfmt, "Q key Q Q value Q; __type__ skipped", f"METADATA entries written as {lines!r}")
+        lines = body("layer", [("projection", [s1("p1"), s1("p2")])])
+        inner = lines[1:-1]
+        good = len(lines) == 4 and lines[0] == SStr(["PROJECTION"]) and lines[-1] == SStr(["END"]) and all(b.pieces and b.pieces[0] == q and b.pieces[-1] == q for b in inner)
+        ctx.check(good, "M2", f"PROJECTION strings (quote {q})", lfmt, "each string quoted", f"PROJECTION written as {lines!r}")
+        lines = body("layer", [("projection", [SStr.atom("w", lower_is="auto")])])
+        ctx.check(lines == [SStr(["PROJECTION"]), SStr(["AUTO"]), SStr(["END"])], "M2", f"PROJECTION AUTO (quote {q})", lfmt, "AUTO bare", f"PROJECTION AUTO written as {lines!r}")
 
     # ---- H1 hidden keys ----------------------------------------------------------------------------
     ctx.rule("H1", "keys of the form __name__ never reach the output (evaluated on dictionaries whose hidden keys carry recognisable values)", 3)
